@@ -75,6 +75,9 @@ def run(ctx):
     N = ctx.scale(1500, 18000)
     for it in range(N):
         n = rng.choice([2, 3, 4, 5, 9, 10])
+        if it % 30 == 5:
+            n = rng.choice([16, 17, 24, 33, 64, 65, 70])      # scale-up slice: masks of more than 2 / 4 / 8 bytes
+            ctx.count("large_collections")
         nd = rng.choice([0, 0, 2, 2, 3])   # ndim 1 = univariate series
         equal = rng.random() < 0.5
         n0 = rng.randint(2, 7)
